@@ -82,6 +82,8 @@ class _Ctx:
         self.reach = 0
         self.raised = 0
         self.nth = case.get("nth", 1)
+        self.later = None        # deferred definition of a forward referent ("defined_later")
+        self.ref_cls = None
         # nth = 2: the first reach answers "does not satisfy", which sends beartype down its error path
         # (violation description re-walks hint and object), where the second reach raises
         self.fail = self.nth >= 2
@@ -322,6 +324,24 @@ def build_defect(ctx, kind, var):
                 return T.ForwardRef(_leaf(rnd, "name"))
             if var == "fwdref_obj_syntax":
                 return T.ForwardRef("list[int")
+        if kind == "fwdref":
+            # a dotted forward reference into a fresh module; what the name means when first looked up
+            import types
+            mod = types.ModuleType(_uniq("c11_fwd_mod"))
+            sys.modules[mod.__name__] = mod
+            ref_cls = type(_uniq("RefCls"), (), {})
+            if var == "nonclass_alias":
+                mod.Ref = rnd.choice([list[str], dict[str, int], tuple[int, ...]])     # a valid hint, not a class
+            elif var == "nonhint_int":
+                mod.Ref = _leaf(rnd, "int")
+            elif var == "valid_class":
+                mod.Ref = ref_cls
+            elif var == "defined_later":
+                ctx.later = lambda: setattr(mod, "Ref", ref_cls)     # run after the first call / query
+            elif var != "undefined":
+                raise KeyError(k)
+            ctx.ref_cls = ref_cls
+            return mod.__name__ + ".Ref"
         if kind == "annotated":
             from beartype.vale import Is, IsAttr, IsEqual, IsInstance, IsSubclass
             def always(x):
@@ -612,6 +632,9 @@ def build_case(ctx):
         return hint, val
     D = build_defect(ctx, defect, c["var"])
     dval = ctx.rnd.choice([0, "s", None, (1,), 2.5])
+    if defect == "fwdref":
+        # type['Ref'] is checked with issubclass(): pass a class; elsewhere an instance of the (eventual) class
+        dval = ctx.rnd.choice([int, str, ctx.ref_cls]) if c["pos"] == "typearg" else ctx.ref_cls()
     hint, val = apply_position(ctx, c["pos"], D, dval)
     if rp in ("none", "callable"):
         return hint, val
@@ -699,6 +722,13 @@ class _Timeout(BaseException):
     pass
 
 
+def _after_first(ctx, i):
+    """between the first and the second invocation: a referent "defined only later" appears now."""
+    if i == 0 and ctx.later is not None:
+        ctx.later()
+        ctx.events.append({"ev": "Note", "what": "referent defined"})
+
+
 def run_case(case):
     """Child: concretise and run one case; return {'skip': why} or {'events': [...]}."""
     sys.setrecursionlimit(1000)
@@ -710,7 +740,7 @@ def run_case(case):
         return {"skip": str(s)}
     from beartype import beartype
     from beartype.door import TypeHint, die_if_unbearable, is_bearable, is_subhint
-    entry, rp = case["entry"], case["rp"]
+    entry, rp, rept = case["entry"], case["rp"], case.get("rept", 1)
     try:
         hrepr = repr(hint)[:160]
     except BaseException as ex:     # noqa
@@ -720,33 +750,44 @@ def run_case(case):
     if entry in ("decorate", "call"):
         slot = case.get("slot", "param")
 
+        # the wrapped callable is a plain module-level function of a fresh module (no closure, no "<locals>"
+        # in its qualified name): beartype resolves stringified hints against that module's globals
+        import types
+        fmod = types.ModuleType(_uniq("c11_func_mod"))
+        sys.modules[fmod.__name__] = fmod
+        fname = _uniq("wrapped")
+        fmod.__dict__.update({"ctx": ctx, "rp": rp})
+        exec(f"def {fname}(x):\n    if rp == 'callable':\n        ctx.boom()\n    return x\n", fmod.__dict__)
+        f = fmod.__dict__[fname]
+        f.__annotations__ = {"x": hint} if slot == "param" else {"return": hint}
+
         def decorate():
-            if slot == "param":
-                def f(x):
-                    if rp == "callable":
-                        ctx.boom()
-                    return x
-                f.__annotations__ = {"x": hint}
-            else:
-                def f(x):
-                    if rp == "callable":
-                        ctx.boom()
-                    return x
-                f.__annotations__ = {"return": hint}
-            f.__name__ = f.__qualname__ = _uniq("wrapped")
             return beartype(f)
         out, g = _observe(ctx, "decor", decorate)
         if entry == "call" and out["kind"] == "ok":
-            _observe(ctx, "call", lambda: g(val))
-            if case["defect"] != "none" and rp == "none":
-                # a second value of another shape: reach other branches of the generated code
-                _observe(ctx, "call", lambda: g(object()))
+            if rept > 1:
+                # the SAME wrapper called again with the SAME object: memoised failures show from call 2 on
+                for i in range(rept):
+                    _observe(ctx, "call", lambda: g(val))
+                    _after_first(ctx, i)
+            else:
+                _observe(ctx, "call", lambda: g(val))
+                if case["defect"] != "none" and rp == "none":
+                    # a second value of another shape: reach other branches of the generated code
+                    _observe(ctx, "call", lambda: g(object()))
     elif entry == "is_bearable":
-        _observe(ctx, "door", lambda: is_bearable(val, hint))
+        for i in range(rept):
+            _observe(ctx, "door", lambda: is_bearable(val, hint))
+            _after_first(ctx, i)
     elif entry == "die_if_unbearable":
-        _observe(ctx, "door", lambda: die_if_unbearable(val, hint))
-        if case["defect"] != "none" and rp == "none":
-            _observe(ctx, "door", lambda: die_if_unbearable(object(), hint))
+        if rept > 1:
+            for i in range(rept):
+                _observe(ctx, "door", lambda: die_if_unbearable(val, hint))
+                _after_first(ctx, i)
+        else:
+            _observe(ctx, "door", lambda: die_if_unbearable(val, hint))
+            if case["defect"] != "none" and rp == "none":
+                _observe(ctx, "door", lambda: die_if_unbearable(object(), hint))
     elif entry == "TypeHint":
         out, th = _observe(ctx, "hint", lambda: TypeHint(hint))
         if out["kind"] == "ok":
@@ -754,17 +795,24 @@ def run_case(case):
             # (hash(th) is not observed: TypeError is python's own protocol for unhashable content)
             _observe(ctx, "hint", lambda: (repr(th), len(th), list(th), th == th, th.is_ignorable,
                                            th.hint, th.args))
-            _observe(ctx, "door", lambda: th.is_bearable(val))
+            for i in range(rept):
+                _observe(ctx, "door", lambda: th.is_bearable(val))
+                _after_first(ctx, i)
     elif entry == "is_subhint":
-        _observe(ctx, "hint", lambda: is_subhint(hint, object))
-        _observe(ctx, "hint", lambda: is_subhint(int, hint))
-        _observe(ctx, "hint", lambda: is_subhint(hint, hint))
+        if rept > 1:
+            for i in range(rept):
+                _observe(ctx, "hint", lambda: is_subhint(hint, object))
+                _after_first(ctx, i)
+        else:
+            _observe(ctx, "hint", lambda: is_subhint(hint, object))
+            _observe(ctx, "hint", lambda: is_subhint(int, hint))
+            _observe(ctx, "hint", lambda: is_subhint(hint, hint))
     else:
         raise KeyError(entry)
     return {"events": ctx.events, "reach": ctx.reach}
 
 
-CASE_CPU_S = 5          # CPU seconds (user+sys of the child) one case may take before it is abandoned
+CASE_CPU_S = 4          # CPU seconds (user+sys of the child) one case may take before it is abandoned
 
 
 def run_shard(cases):
@@ -791,7 +839,7 @@ def run_shard(cases):
 
 
 # ------------------------------------------------------------------ spec side
-KINDS = ["nonhint", "unhashable", "arity", "unsupported", "malformed", "string", "annotated", "literal",
+KINDS = ["nonhint", "unhashable", "arity", "unsupported", "malformed", "string", "fwdref", "annotated", "literal",
          "noneellipsis", "recursive", "deep"]
 
 CFG = """SPECIFICATION Spec
@@ -825,6 +873,7 @@ MUTANTS = [
     ("report_wraps_user", ["nonhint"], "UserPassesThrough|NoPrivateException"),
     ("decor_class_at_call", ["string"], "PhaseSplit"),
     ("reraise_copies", ["nonhint"], "NoForeignException"),
+    ("cache_unvalidated_referent", ["fwdref"], "NoForeignException"),     # seeded into fwdrefmeta (C11b)
 ]
 
 
@@ -868,12 +917,17 @@ def _model(rep, d, fpath, tier):
     cases = []
     for row in res.printed:
         if isinstance(row, str) and row.startswith("case|"):
-            _, entry, kind, var, pos, rp, nth, slot = row.split("|")
+            _, entry, kind, var, pos, rp, nth, slot, rept = row.split("|")
             cases.append({"entry": entry, "defect": kind, "var": var, "pos": pos, "rp": rp, "nth": int(nth),
-                          "slot": slot})
+                          "slot": slot, "rept": int(rept)})
     if len(cases) < 1000:
         rep.machinery(f"TLC emitted only {len(cases)} cases")
-    cases.sort(key=lambda c: (c["defect"], c["var"], c["pos"], c["entry"], c["rp"], c["nth"], c["slot"]))
+    # identifiers seed the leaf values: the cases of the first grammar (single invocation, no forward-reference
+    # kind) keep the identifiers they always had; cases of later dimensions are numbered after them
+    def first_grammar(c):
+        return c["rept"] == 1 and c["defect"] != "fwdref"
+    cases.sort(key=lambda c: (not first_grammar(c), c["defect"], c["var"], c["pos"], c["entry"], c["rp"], c["nth"],
+                              c["slot"], c["rept"]))
     for i, c in enumerate(cases):
         c["id"] = i + 1
     rep.add("cases_enumerated_by_tlc", len(cases))
@@ -899,32 +953,39 @@ def _mutants_check(rep, results):
 def _select(cases, tier, seed):
     if tier != "quick":
         return list(cases)
-    rnd = random.Random(seed)
-    groups = {}
-    for c in cases:
-        if c["defect"] != "none" and c["rp"] == "none":
-            key = ("d", c["defect"], c["var"], c["entry"])
-        elif c["defect"] == "none":
-            key = ("r", c["rp"], c["entry"], c["nth"], c["pos"])
-        else:
-            key = ("c", c["defect"], c["rp"], c["entry"])
-        groups.setdefault(key, []).append(c)
-    out = []
-    for key in sorted(groups):
-        g = groups[key]
-        if key[0] == "d":
-            root = [c for c in g if c["pos"] == "root" and c["slot"] == "param"]
-            rest = [c for c in g if not (c["pos"] == "root" and c["slot"] == "param")]
-            out += root + rnd.sample(rest, min(1, len(rest)))
-        elif key[0] == "r":
-            out += g
-        else:
-            out += rnd.sample(g, min(2, len(g)))
-    return out
+
+    def pick(subset, rnd):
+        groups = {}
+        for c in subset:
+            if c["defect"] != "none" and c["rp"] == "none":
+                key = ("d", c["defect"], c["var"], c["entry"])
+            elif c["defect"] == "none":
+                key = ("r", c["rp"], c["entry"], c["nth"], c["pos"])
+            else:
+                key = ("c", c["defect"], c["rp"], c["entry"])
+            groups.setdefault(key, []).append(c)
+        out = []
+        for key in sorted(groups):
+            g = groups[key]
+            if key[0] == "d" and key[1] == "fwdref":       # every position a forward reference is documented for
+                out += [c for c in g if c["pos"] in ("root", "child", "typearg", "union", "optional")]
+            elif key[0] == "d":
+                root = [c for c in g if c["pos"] == "root" and c["slot"] == "param"]
+                rest = [c for c in g if not (c["pos"] == "root" and c["slot"] == "param")]
+                out += root + rnd.sample(rest, min(1, len(rest)))
+            elif key[0] == "r":
+                out += g
+            else:
+                out += rnd.sample(g, min(2, len(g)))
+        return out
+    # two independent streams: adding a dimension to the grammar does not reshuffle the sample of the others
+    first = [c for c in cases if c["rept"] == 1 and c["defect"] != "fwdref"]
+    later = [c for c in cases if not (c["rept"] == 1 and c["defect"] != "fwdref")]
+    return pick(first, random.Random(seed)) + pick(later, random.Random(seed * 7919 + 1))
 
 
 EVENT_DEFAULTS = {"id": 0, "entry": "", "defect": "", "var": "", "pos": "", "rp": "", "nth": 1, "slot": "",
-                  "next": 0, "phase": "", "uid": 0, "on_pith": False, "cls": "", "mro": [], "kind": "",
+                  "rept": 1, "next": 0, "phase": "", "uid": 0, "on_pith": False, "cls": "", "mro": [], "kind": "",
                   "tb_anchor": True, "args_same": True, "chain_same": True, "ret_cls": ""}
 
 
@@ -934,6 +995,8 @@ def _write_log(path, results):
     for case, events in results:
         start = len(lines)
         for e in events:
+            if e["ev"] == "Note":           # harness bookkeeping, not an observation
+                continue
             rec = dict(EVENT_DEFAULTS)
             for k in EVENT_DEFAULTS:
                 if k in e:
@@ -942,7 +1005,8 @@ def _write_log(path, results):
             rec["id"] = case["id"]
             if e["ev"] == "Begin":
                 rec.update({"entry": case["entry"], "defect": case["defect"], "var": case["var"], "pos": case["pos"],
-                            "rp": case["rp"], "nth": case["nth"], "slot": case["slot"]})
+                            "rp": case["rp"], "nth": case["nth"], "slot": case["slot"],
+                            "rept": case.get("rept", 1)})
             lines.append(rec)
             index[len(lines)] = (case, e)
         lines[start]["next"] = len(lines) + 1
@@ -974,9 +1038,14 @@ def _replay_and_judge(rep, d, fpath, cases, seed, pool, label="replay"):
     """R2 + R3 for a list of cases.  Returns the per-case verdicts."""
     for c in cases:
         c["seed"] = seed
-    shards = [cases[i:i + 24] for i in range(0, len(cases), 24)]
+    # strided shards: expensive neighbours (deep, self-referential hints) are spread over the workers
+    nsh = max(1, (len(cases) + 23) // 24)
+    shards = [cases[i::nsh] for i in range(nsh)]
     outs = pool.map(run_shard, shards, chunksize=1)
-    flat = [r for sh in outs for r in sh]
+    flat = [None] * len(cases)
+    for i, sh in enumerate(outs):
+        for j, r in enumerate(sh):
+            flat[i + j * nsh] = r
     results, skipped, timeouts = [], 0, 0
     for c, r in zip(cases, flat):
         if "skip" in r:
@@ -1127,7 +1196,7 @@ def run(rep, tier, seed):
                 sub = [dict(c) for c in _select(cases, "quick", s2)]
                 _replay_and_judge(rep, d, fpath, sub, s2, pool, label=f"seed{s2}")
         for c, evs in results[:: max(1, len(results) // 6)]:
-            rep.sample({"case": {k: c[k] for k in ("entry", "defect", "var", "pos", "rp", "nth", "slot")},
+            rep.sample({"case": {k: c[k] for k in ("entry", "defect", "var", "pos", "rp", "nth", "slot", "rept")},
                         "events": [{k: v for k, v in e.items() if k in ("ev", "phase", "kind", "cls", "hint")}
                                    for e in evs]})
     rep.cov["exhaustive"] = tier == "thorough"
@@ -1146,7 +1215,7 @@ def replay(rep, path):
         fpath = _write_forest(d, forest)
         results, judged, followed = _replay_and_judge(rep, d, fpath, cs, case.get("seed", 0), pool, label="replay")
     for c, evs in results:
-        print({k: c[k] for k in ("entry", "defect", "var", "pos", "rp", "nth", "slot")})
+        print({k: c[k] for k in ("entry", "defect", "var", "pos", "rp", "nth", "slot", "rept")})
         for e in evs:
             print("   ", {k: v for k, v in e.items() if k not in ("mro",)})
     print(f"judged by TLC as breaking the property: {len(judged)} outcome(s)")
